@@ -257,3 +257,74 @@ def handler_class_exprs(handler):
     if isinstance(handler.type, ast.Tuple):
         return list(handler.type.elts)
     return [handler.type]
+
+
+def fold_text(e, tokens):
+    """Text denoted by a string-building expression, with the sources in `tokens` replaced by their marker; None when not foldable.
+    Understands literals, `fmt % x` / `fmt % (x, y)` with %s, and `fmt.format(x, y)` with {} / {!s} / {0}-style fields."""
+    src = norm(e)
+    if src in tokens:
+        return tokens[src]
+    if isinstance(e, ast.Call) and dotted(e.func) == "str" and len(e.args) == 1:
+        return fold_text(e.args[0], tokens)
+    if isinstance(e, ast.Constant) and isinstance(e.value, str):
+        return e.value
+    if isinstance(e, ast.JoinedStr):
+        out = []
+        for part in e.values:
+            if isinstance(part, ast.Constant) and isinstance(part.value, str):
+                out.append(part.value)
+            elif isinstance(part, ast.FormattedValue) and part.format_spec is None and part.conversion in (-1, 115):
+                v = fold_text(part.value, tokens)
+                if v is None:
+                    return None
+                out.append(v)
+            else:
+                return None
+        return "".join(out)
+    if isinstance(e, ast.BinOp) and isinstance(e.op, ast.Add):
+        a, b = fold_text(e.left, tokens), fold_text(e.right, tokens)
+        return None if a is None or b is None else a + b
+    if isinstance(e, ast.BinOp) and isinstance(e.op, ast.Mod):
+        fmt = fold_text(e.left, tokens)
+        args = e.right.elts if isinstance(e.right, ast.Tuple) else [e.right]
+        vals = [fold_text(a, tokens) for a in args]
+        if fmt is None or any(v is None for v in vals) or fmt.count("%s") != len(vals) or fmt.replace("%s", "").count("%") != 0:
+            return None
+        out = fmt
+        for v in vals:
+            out = out.replace("%s", v, 1)
+        return out
+    if isinstance(e, ast.Call) and isinstance(e.func, ast.Attribute) and e.func.attr == "format" and not e.keywords:
+        fmt = fold_text(e.func.value, tokens)
+        vals = [fold_text(a, tokens) for a in e.args]
+        if fmt is None or any(v is None for v in vals):
+            return None
+        out = []
+        i = 0
+        auto = 0
+        while i < len(fmt):
+            ch = fmt[i]
+            if ch == "{":
+                j = fmt.find("}", i)
+                if j < 0:
+                    return None
+                field = fmt[i + 1:j].split("!")[0].split(":")[0]
+                if field == "":
+                    k = auto
+                    auto += 1
+                elif field.isdigit():
+                    k = int(field)
+                else:
+                    return None
+                if k >= len(vals):
+                    return None
+                out.append(vals[k])
+                i = j + 1
+            elif ch == "}":
+                return None
+            else:
+                out.append(ch)
+                i += 1
+        return "".join(out)
+    return None
